@@ -148,6 +148,15 @@ class PassAnalysis:
                 classes = self.mn_classes.get(nm, set())
                 if len(classes) == 1:
                     st.fact(self.item)['isa'].add(next(iter(classes)))
+            elif not names:
+                # a rule that admits several mnemonics (`i.name in (..)`): the item is of the class they share, if they share one
+                for f, _, _ in self.lifted(key, preds):
+                    if f[0] == 'or' and f[1] and all(x[0] == 'cmp' and x[1] == '==' and x[2] == ('NAME',) and x[3][0] == 'const' for x in f[1]):
+                        classes = set()
+                        for x in f[1]:
+                            classes |= self.mn_classes.get(x[3][1], set())
+                        if len(classes) == 1:
+                            st.fact(self.item)['isa'].add(next(iter(classes)))
         consumed = self.sizes.size(self.item, st)
         appended = LinS()
         app_values = []
